@@ -1,7 +1,7 @@
 (* C15 — three-way merge (kyaml merge3 on the generic walker): property theorems only.
    Model: Yaml/Walk.v (the walker shared with C04) + Yaml/Merge3.v (Visitor). *)
 From KV Require Import Yaml.Walk Yaml.WalkProofs Yaml.WalkFields Yaml.Merge2 Yaml.Merge2Frame
-     Yaml.Merge3 Yaml.Merge3Proofs Yaml.Merge3Examples Yaml.WalkGenProofs Gen.WalkTables.
+     Yaml.Merge3 Yaml.Merge3Proofs Yaml.Merge3Examples Yaml.Merge2Idem Yaml.Merge3Whole Yaml.WalkGenProofs Gen.WalkTables.
 
 (* merge3.Merge at the canonical fuel never runs out of fuel, for every schema, option set and triple. *)
 Theorem C15_no_diverge :
@@ -63,6 +63,20 @@ Theorem C15_all_equal_kept_partial :
       getp q r = Some (Fns.quote11 nonstr v).
 Proof. exact (@merge3_all_equal_kept). Qed.
 Print Assumptions C15_all_equal_kept_partial.
+
+(* merge3(d,d,d) = d as a WHOLE-DOCUMENT equality (exact node equality), partial: on kinds whose lists are atomic, for a
+   mapping d with pairwise different keys in every mapping reached through mappings ([wfk]), without any null reached
+   through mappings and without plain strings that FieldSetter force-quotes ([clean3 nonstr]): whenever the merge
+   answers at all, it answers d. (Excluded by the hypotheses: explicit / implicit nulls -- refuted above.) *)
+Theorem C15_all_equal_partial :
+  forall (Sc : Type) (sch : schema Sc) (opts : wopts) (nonstr : string -> bool),
+    atomic_lists sch opts ->
+    forall (d : node) (r : option node),
+      is_map d && wfk d && clean3 nonstr d = true ->
+      merge3 sch opts nonstr (Some d) (Some d) (Some d) = Ok r ->
+      r = Some d.
+Proof. exact (@merge3_all_equal). Qed.
+Print Assumptions C15_all_equal_partial.
 
 (* FULL law: merge3(o,o,u) = u. FALSE: a mapping removed upstream leaves {} (finding
    C15/updated_when_local_unchanged/container-missing-on-one-side) ... *)
